@@ -20,7 +20,8 @@ EXPLANATION = (
     "the depth guard is `maxlevel is None or level < maxlevel` (None-test, strict) with start level 1 and does not dominate "
     "construction of the node's own dict; X4 the 'children' key is stored only when the exported list is non-empty; X5 the "
     "importer builds nodecls(parent=parent, **attrs) from the copy minus exactly 'children', iterates the children in order "
-    "and recurses with parent=<the node just built>; import_ passes data unchanged. Not decided: round-trip equality."
+    "and recurses with parent=<the node just built>; import_ passes data unchanged; X6 Node/AnyNode constructors put keyword "
+    "attributes straight into the instance dict (any key is storable and exported again). Not decided: round-trip equality."
 )
 ASSUMPTIONS = ["node.__dict__ holds the instance attributes; user nodecls/dictcls/attriter/childiter are opaque"]
 DE = "anytree/exporter/dictexporter.py"
